@@ -73,6 +73,10 @@ Definition mx_s_term1 : mx_bytes := Eval compute in mx_of_string "<Terminated wi
 Definition mx_s_term2 : mx_bytes := Eval compute in mx_of_string " (0x".
 Definition mx_s_term3 : mx_bytes := Eval compute in mx_of_string ").>".
 
+Definition mx_s_timeout : mx_bytes := Eval compute in mx_of_string "<Timeout exceeded.>".
+Definition mx_s_sig1 : mx_bytes := Eval compute in mx_of_string "<Terminated by signal ".
+Definition mx_s_sig2 : mx_bytes := Eval compute in mx_of_string ".>".
+
 (* decimal digits of an integer (Convert::ToString(double) of an integral value, operator<< of an int) *)
 Fixpoint mx_dec_aux (fuel : nat) (n : N) (acc : mx_bytes) : mx_bytes :=
   match fuel with
@@ -194,3 +198,13 @@ Fixpoint mx_hex_aux (fuel : nat) (n : N) (acc : mx_bytes) : mx_bytes :=
            if n / 16 =? 0 then acc' else mx_hex_aux f (n / 16) acc'
   end.
 Definition mx_hex (n : N) : mx_bytes := mx_hex_aux (S (N.size_nat n)) n [].
+
+(* does [m] occur in [s] (String::Contains) *)
+Fixpoint mx_is_prefix (m s : mx_bytes) : bool :=
+  match m, s with
+  | [], _ => true
+  | x :: m', y :: s' => (x =? y) && mx_is_prefix m' s'
+  | _ :: _, [] => false
+  end.
+Fixpoint mx_contains (m s : mx_bytes) : bool :=
+  mx_is_prefix m s || match s with [] => false | _ :: t => mx_contains m t end.
